@@ -488,8 +488,8 @@ static void fam_strings(void)
 	                              "0", "00", "007", "1.5", "1e3", "1e400", "-1e400", "1e-400", "12abc", "abc", "0x10", "inf", "nan", "Infinity", "1,5", ".5", "5.", "+.5e1"};
 	for (unsigned i = 0; i < sizeof bases / sizeof bases[0]; i++)
 	{
-		static const char *pre[] = {"", "-", "+", " ", "  -", "\t", "\n-", " +"};
-		for (unsigned p = 0; p < 8; p++)
+		static const char *pre[] = {"", "-", "+", " ", "  -", "\t", "\n-", " +", "\v", "\f-", "\r-", "\v-", " \f -", "\f+", "\r"};
+		for (unsigned p = 0; p < sizeof pre / sizeof pre[0]; p++)
 		{
 			char t[96];
 			snprintf(t, sizeof t, "%s%s", pre[p], bases[i]);
